@@ -344,7 +344,11 @@ Job gen_job(Src &s, Ctx &c, bool *nt, const char **tag) {
         case 5: { std::string x = gen_str(s, A_TXT, 17, 60); c.op("rev/upper/lower on %s", hexs(x).c_str()); *nt = x.size() >= 2; *tag = "rev_case"; return [x](Ctx &k) { chk_revcase(k, x); }; }
         case 6: { std::string x = gen_str(s, "ab,|: ", 6, 60), d = gen_str(s, ",|:", 3, 3); c.op("tok(%s, delimiters %s)", hexs(x).c_str(), hexs(d).c_str()); *nt = x.find_first_of(d) != std::string::npos && !d.empty(); *tag = "tokenizer"; return [x, d](Ctx &k) { chk_tok(k, x, d); }; }
         case 7: { std::string x = gen_str(s, "ab\n\r ", 5, 120); size_t size = (size_t)s.range(2, 40); c.op("gets(%s, size %zu)", hexs(x).c_str(), size); *nt = x.find_first_of("\r\n") != std::string::npos; *tag = "gets"; return [x, size](Ctx &k) { chk_gets(k, x, size); }; }
-        default: { std::string x = gen_str(s, "ab% ", 4, 40); long n = s.range(-100000, 100000); c.op("dupf/catf(%s,%ld)", hexs(x).c_str(), n); *nt = !x.empty(); *tag = "format"; return [x, n](Ctx &k) { chk_fmt(k, x, n); }; }
+        default: {
+            std::string x = gen_str(s, "ab% ", 4, 40); long n = s.range(-100000, 100000);
+            // outputs around the sizes a formatting buffer plausibly has (the result is a|n|a: two copies of x)
+            if (s.chance(1, 6)) { static const size_t edge[] = {256, 512, 1024, 1024, 2048, 4096, 8192}; size_t total = edge[s.range(0, 6)] + (size_t)s.range(0, 6) - 3; size_t fixed = 2 + std::to_string(n).size(); size_t each = total > fixed ? (total - fixed) / 2 : 1; x.assign(each, 'a'); for (size_t i = 0; i < each; i += 7) x[i] = "ab% "[(i / 7) % 4]; }
+            c.op("dupf/catf(%s,%ld) [%zu-byte argument]", hexs(x, 24).c_str(), n, x.size()); *nt = !x.empty(); *tag = x.size() > 100 ? "format_long" : "format"; return [x, n](Ctx &k) { chk_fmt(k, x, n); }; }
     }
 }
 
